@@ -110,7 +110,10 @@ def run_history(seed, n=30, bounds=False, verbose=False):
             elif k=='pause': g.pause(rnd.random()<0.5)
             elif k=='stop': g.stop(rnd.random()<0.5)
             elif k=='wait': g.wait()
-            elif k=='emergency_halt': g.emergency_halt("msg", rnd.random()<0.5)
+            elif k=='emergency_halt':
+                n_before=len(r.lines); rst=rnd.random()<0.5; g.emergency_halt("msg", rst)
+                seq=[ (l.split(';')[0].split() or [';'])[0] for l in r.lines[n_before:]]
+                if seq!=['M05','M09',';','M30' if rst else 'M00']: issues.append(('C06 emergency sequence',seed,i,seq))
             elif k=='set_feed_rate': g.set_feed_rate(rnd.choice([50,100,500,2000]))
             elif k=='set_tool_power': g.set_tool_power(rnd.choice([0,10,100,900]))
             elif k=='set_bed': g.set_bed_temperature(rnd.choice([20,60,150]))
